@@ -13,7 +13,7 @@ Definition ctpk_match (f : bytes) (tsec : N) (i : ctpk_info) (t : tex) : Prop :=
   ci_fmt i = t_fmt t /\ ci_w i = t_w t /\ ci_h i = t_h t /\
   cstr_atN f (ci_name_ptr i) = Some (t_name t) /\
   sliceN (tsec + ci_data_ptr i) (lenN (t_data t)) f = Some (t_data t) /\
-  tex3ds_wf sjis_valid t.
+  tex3ds_wf sjis_name t.
 
 Ltac known :=
   first [ erewrite rd32_some by eassumption | erewrite rd16_some by eassumption | erewrite rd8_some by eassumption ];
@@ -61,26 +61,28 @@ Qed.
 
 Hypothesis Hsmall : lenN f < 2 ^ 32.
 
-Lemma ctpk_texture_ok m i t : ctpk_match f tsec i t -> ctpk_texture m f tsec i = decode_tex m t.
+Lemma ctpk_texture_ok m i t : ctpk_match f tsec i t -> f32_exact t -> ctpk_texture m f tsec i = decode_tex m t.
 Proof.
-  intros (Hf & Hw & Hh & Hn & Hd & (Hv & Hsz & _)). unfold ctpk_texture, decode_tex.
+  intros (Hf & Hw & Hh & Hn & Hd & (Hv & Hsz & _)) Hx. unfold f32_exact in Hx. unfold ctpk_texture, decode_tex.
+  apply andb_prop in Hv. destruct Hv as [_ Hv].
   rewrite (read_name_cstr _ _ _ _ Hn Hv). cbn [bind].
   pose proof (sliceN_bound _ _ _ _ Hd) as B.
   rewrite add32_ok by lia. cbn [bind].
-  rewrite Hf, Hw, Hh, <- Hsz. rewrite (rd_exact_some _ _ _ Hd). cbn [bind]. reflexivity.
+  rewrite Hf, Hw, Hh, Hx, <- Hsz. rewrite (rd_exact_some _ _ _ Hd). cbn [bind]. reflexivity.
 Qed.
 
-Lemma ctpk_textures_ok m : forall infos texs, Forall2 (ctpk_match f tsec) infos texs ->
+Lemma ctpk_textures_ok m : forall infos texs, Forall2 (ctpk_match f tsec) infos texs -> Forall f32_exact texs ->
   ctpk_textures m f tsec infos = decode_all (decode_tex m) texs.
 Proof.
-  induction 1 as [|i t infos texs Hm _ IH]; [reflexivity|].
-  cbn [ctpk_textures decode_all]. rewrite (ctpk_texture_ok m i t Hm), IH. reflexivity.
+  induction 1 as [|i t infos texs Hm _ IH]; intros Hx; [reflexivity|]. inversion Hx; subst.
+  cbn [ctpk_textures decode_all]. rewrite (ctpk_texture_ok m i t Hm), IH by assumption. reflexivity.
 Qed.
 End Ctpk.
 
-Theorem read_ctpk_correct : forall m f texs, conforms_ctpk f texs -> read_ctpk m f = decode_all (decode_tex m) texs.
+Theorem read_ctpk_correct : forall m f texs, conforms_ctpk f texs -> Forall f32_exact texs ->
+  read_ctpk m f = decode_all (decode_tex m) texs.
 Proof.
-  intros m f texs (Hsmall & H32 & Hmagic & Hcount & tsec & Htsec & Hent).
+  intros m f texs (Hsmall & H32 & Hmagic & Hcount & tsec & Htsec & Hent) Hx.
   unfold read_ctpk, ctpk_header. known. some16. known. known. some32. some32. some32.
   rewrite Nat2N.id.
   destruct (ctpk_infos_ok f tsec texs 0) as (infos & Ei & Mi & _).
@@ -111,15 +113,15 @@ Variable tsec : N.
 Variable m : mode.
 Hypothesis Hsmall : lenN (g ++ r) < 2 ^ 32.
 
-Lemma ctpk_texture_prefix i t : ctpk_match (g ++ r) tsec i t -> no_panic (decode_tex m t) ->
+Lemma ctpk_texture_prefix i t : ctpk_match (g ++ r) tsec i t -> f32_exact t -> no_panic (decode_tex m t) ->
   no_panic (ctpk_texture m g tsec i) /\
   (cuts (lenN g) (tsec + ci_data_ptr i) (t_data t) -> is_err (ctpk_texture m g tsec i)).
 Proof.
-  intros (Hf & Hw & Hh & Hn & Hd & (Hv & Hsz & _)) Hdec. unfold ctpk_texture.
+  intros (Hf & Hw & Hh & Hn & Hd & (Hv & Hsz & _)) Hx Hdec. unfold f32_exact in Hx. unfold ctpk_texture.
   destruct (read_name_cases sjis_valid g (ci_name_ptr i)) as [(s & ->)|E].
   2:{ split; [apply is_err_no_panic|intros _]; apply is_err_bind, E. }
   cbn [bind]. pose proof (sliceN_bound _ _ _ _ Hd) as B. rewrite add32_ok by lia. cbn [bind].
-  rewrite Hf, Hw, Hh, <- Hsz. split.
+  rewrite Hf, Hw, Hh, Hx, <- Hsz. split.
   - destruct (rd_exact_le g r (tsec + ci_data_ptr i) (lenN (t_data t))) as [E|(e & E)]; rewrite E; [|exact I].
     rewrite (rd_exact_some _ _ _ Hd). cbn [bind]. apply no_panic_map_ok.
     unfold decode_tex in Hdec. apply no_panic_map_inv in Hdec. exact Hdec.
@@ -127,15 +129,15 @@ Proof.
 Qed.
 
 Lemma ctpk_textures_prefix : forall infos texs, Forall2 (ctpk_match (g ++ r) tsec) infos texs ->
-  Forall (fun t => no_panic (decode_tex m t)) texs ->
+  Forall f32_exact texs -> Forall (fun t => no_panic (decode_tex m t)) texs ->
   no_panic (ctpk_textures m g tsec infos) /\
   (forall j i t, nth_error infos j = Some i -> nth_error texs j = Some t ->
      cuts (lenN g) (tsec + ci_data_ptr i) (t_data t) -> is_err (ctpk_textures m g tsec infos)).
 Proof.
-  induction 1 as [|i t infos texs Hm _ IH]; intros Hdec.
+  induction 1 as [|i t infos texs Hm _ IH]; intros Hx Hdec.
   - split; [exact I|]. intros [|j] i t; discriminate.
-  - inversion Hdec as [|? ? Hd0 Hdr]; subst. destruct (IH Hdr) as (IHn & IHc).
-    destruct (ctpk_texture_prefix i t Hm Hd0) as (Hn0 & Hc0).
+  - inversion Hdec as [|? ? Hd0 Hdr]; subst. inversion Hx as [|? ? Hx0 Hxr]; subst. destruct (IH Hxr Hdr) as (IHn & IHc).
+    destruct (ctpk_texture_prefix i t Hm Hx0 Hd0) as (Hn0 & Hc0).
     cbn [ctpk_textures]. split; [apply loop_step_class; assumption|].
     intros [|j] i' t' Hi Ht Hcut; cbn [nth_error] in Hi, Ht.
     + inversion Hi; inversion Ht; subst. apply loop_step_err_l, Hc0, Hcut.
@@ -143,13 +145,13 @@ Proof.
 Qed.
 End CtpkPrefix.
 
-Theorem ctpk_prefix : forall m f texs k, conforms_ctpk f texs -> Forall (fun t => no_panic (decode_tex m t)) texs ->
-  k < lenN f ->
+Theorem ctpk_prefix : forall m f texs k, conforms_ctpk f texs -> Forall f32_exact texs ->
+  Forall (fun t => no_panic (decode_tex m t)) texs -> k < lenN f ->
   no_panic (read_ctpk m (firstn (N.to_nat k) f)) /\
   (forall i t off, nth_error texs i = Some t -> ctpk_payload_at f (N.of_nat i) off -> cuts k off (t_data t) ->
      is_err (read_ctpk m (firstn (N.to_nat k) f))).
 Proof.
-  intros m f texs k Hc Hdec Hk.
+  intros m f texs k Hc Hx Hdec Hk.
   set (g := firstn (N.to_nat k) f). set (r := skipn (N.to_nat k) f).
   assert (Ef : f = g ++ r) by (symmetry; apply firstn_skipn).
   assert (Lg : lenN g = k) by (apply lenN_firstn; lia).
@@ -169,7 +171,7 @@ Proof.
   2:{ split; [apply is_err_no_panic|intros ? ? ? _ _ _]; apply is_err_bind, E2. }
   cbn [bind].
   rewrite Ef in Mi, Hsmall.
-  destruct (ctpk_textures_prefix g r tsec m Hsmall infos texs Mi Hdec) as (Hn & Hcut).
+  destruct (ctpk_textures_prefix g r tsec m Hsmall infos texs Mi Hx Hdec) as (Hn & Hcut).
   split; [exact Hn|].
   intros i t off Hi (tsec' & dp & Ht' & Hdp & ->) Hcuts.
   assert (tsec' = tsec) by congruence. subst tsec'.
